@@ -5,7 +5,7 @@ from . import tlc, progs, engine
 from .engine import ToolError, log, WORK, EVIDENCE, BIN
 from .small import save
 
-KEYS = {"f1", "f2", "x1", "n1", "n2", "s1", "s2", "n3"}      # n3: the name of n1 with another system type
+KEYS = {"f1", "f2", "x1", "n1", "n2", "s1", "s2", "n3", "o1"}      # n3: the name of n1 with another system type; o1: syscall_once with f1's function
 MC_KEYS = {"f1", "x1", "n1", "n3", "s1", "s2"}             # exhaustive model check: one key of every kind (two spawned ids, two systems under one name)
 
 def program_of(hist):
@@ -42,7 +42,10 @@ def monitor_with_desp(stream):
             if k[0] == "s":
                 if overlapping:
                     bad.append("spawned system %s ran while it was already running" % k)
-            if not overlapping:
+            if k[0] == "o":
+                if o["local"] != 1:
+                    bad.append("syscall_once %s did not run on a fresh system: call saw local %d" % (k, o["local"]))
+            elif not overlapping:
                 want = persisted.get(k, 0) + 1
                 if o["local"] != want:
                     bad.append("state of key %s not persisted: call saw local %d, expected %d" % (k, o["local"], want))
@@ -65,7 +68,9 @@ def monitor_with_desp(stream):
             if o["mark"] < r["mark"] + r["marks"]:
                 bad.append("commands queued by the call were not applied when it returned")
             k = r["key"]
-            if k[0] != "s" or alive[k]:
+            if k[0] == "o":
+                pass                                  # syscall_once keeps nothing
+            elif k[0] != "s" or alive[k]:
                 persisted[k] = r["local"]
         elif t == "err":
             k = o["key"]
